@@ -192,12 +192,40 @@ inductive SOp
   | connect (ca : Nat)
   | recv (ca : Nat) (b : Bytes)
   | serviceAll
+  | stall (ca : Nat) (b : Bool)      -- the peer stops / resumes reading: responses stay queued
   deriving Repr
 
 def runSOp (max : Nat) (v : Valet) : SOp → Valet
   | .connect ca => v.connect ca max true
   | .recv ca b => v.recv ca b
   | .serviceAll => v.serviceAll
+  | .stall ca b => v.stall ca b
+
+/-- a peer that stops or resumes reading changes no parser and no key of the table -/
+theorem stall_ok {v : Valet} (h : TableOk v) (ca : Nat) (b : Bool) : TableOk (v.stall ca b) := by
+  obtain ⟨hr, hs, hn⟩ := h
+  unfold Valet.stall
+  cases hl : lookup ca v.conns with
+  | none => exact ⟨hr, hs, hn⟩
+  | some c =>
+    refine ⟨hr, ?_, by simp only []; rw [keysOf_setConn]; exact hn⟩
+    intro k ck hk
+    simp only [] at hk
+    by_cases hkc : k = ca
+    · subst hkc
+      rw [lookup_setConn_eq _ v.conns (by simp [hl])] at hk
+      simp at hk; subst hk; exact hs k c hl
+    · rw [lookup_setConn_ne hkc] at hk; exact hs k ck hk
+
+/-- **A malformed request closes its connection in the same pass whatever is still queued for
+transmit**: the step of `serviceReqs` for one connection does not look at the transmit queue or
+at whether the peer is reading. -/
+theorem C32_malformed_closes_whatever_is_queued (c : Conn) (t z : Bool) :
+    ((reqStepConn { c with txPending := t, stalled := z }).1.isNone = (reqStepConn c).1.isNone) ∧
+    (reqStepConn { c with txPending := t, stalled := z }).2 = (reqStepConn c).2 := by
+  unfold reqStepConn
+  simp only []
+  constructor <;> (repeat' split) <;> simp_all
 
 /-- **The server's service loop never raises**, whatever arrives on whichever connection in
 whatever order: `serviceAll` (requests, responders, transmit) keeps `raised = false`. -/
@@ -223,6 +251,7 @@ theorem C32_server_never_raises (max : Nat) (ops : List SOp) :
         show (v.recv ca b).raised = false
         unfold Valet.recv; split <;> exact hr
       | serviceAll => exact serviceAll_ok ⟨hr, hs, hn⟩
+      | stall ca b => exact stall_ok ⟨hr, hs, hn⟩ ca b
   exact (h ops {} ⟨rfl, C32_empty_safe.1, C32_empty_safe.2⟩).1
 
 /-- **The non-WSGI server (`Porter.serviceStewards`, as repaired by fixes/D32b) likewise**: the loop
